@@ -191,7 +191,7 @@ class RGSpace(StructuredDomain):
         dist = op.target[0]._get_dist_array()
         kernel = Field(op.target, func(dist.asnumpy()))
         kernel = kernel / kernel.s_integrate()
-        return op.adjoint_times(kernel.weight(1))
+        return op.adjoint_times(kernel.weight(1))*op.target[0].total_volume
 
     def get_default_codomain(self):
         """Returns a :class:`RGSpace` object representing the (position or
